@@ -312,8 +312,7 @@ int run_lin(const Args& a) {
             if (yget(sc.storage, f, o) == status::OK) { model[f] = std::string(o.first, o.second); }
         }
         main_ses.leave();
-        // ---- check every key
-        rep.eval();
+        // ---- check every key (evaluations = key sub-histories checked)
         rep.count("rounds");
         rep.count("rounds_" + sc.name);
         rep.count("threads_total", T + nchurn);
@@ -334,6 +333,7 @@ int run_lin(const Args& a) {
             }
             for (auto& e : h) { rep.count(std::string("op_") + opname(e.kind)); }
             LinResult lr = chk.check(h, init[i]);
+            rep.eval();
             ++checked_keys;
             total_steps += static_cast<double>(lr.steps);
             max_steps = std::max(max_steps, lr.steps);
